@@ -9,10 +9,29 @@
   (take rows|cols dense|frame NCOLS ((int…)…) (idx…))  → index-error | (ok (row…) (col…))
   (slicer dense|frame NCOLS ((int…)…) NFEATURES none|NLABELS)
                                                        → index-error | (ok (row…) (scalar (v…))|(vector (row…)))
+  (takes dense|frame NCOLS ((int…)…) ((rows|cols (idx…))…))   chained selections
+                                                       → index-error | (ok (row…) (col…))
+  -- the value level (Model/EntryKind.lean with the live tables of Generated/C15Lattice.lean)
+  (kmatch KIND KIND)                                   → true | false          (declared.match(entry))
+  (cast KIND VAL)                                      → error | VAL           (Primitive.cast)
+  (reflect VCLASS)                                     → KIND | none           (kind.reflect)
+        VAL ::= (bool B) | (int I) | (float I) | (decimal I) | (npbool B) | (npint I) | (npfloat I) | (date D) | (ts D S)
+              | (str int I) | (str float I) | (str date D) | (str ts D S) | (str bool B) | (str word N)
+  (readerv legacy|fixed dense|frame ((n k)…) ((n k)…) ((VAL…)…))
+        entry data given by columns of concrete values, cast = the model of the real kind.cast
+                                                       → missing | index-error | cast-error | (data dense|frame ((VAL…)…))
+  -- histories (Model/EntryMemo.lean)
+  (session legacy|fixed exact|weak none|CAP ((dense|frame ((n k)…) ((n k)…) ((VAL…)…))…))
+        the requests in order through ONE reader instance (memoised _match_entry)       → (OUTCOME…)
+  (decode ((NROWS ((NAME DTYPE VCLASS|none)…))…))
+        the frames in order through ONE process (Pandas.Schema.from_frame)              → (error | ((n k)…) …)
 -/
 import ForML.Model.Sexp
 import ForML.Model.Entry
+import ForML.Model.EntryKind
+import ForML.Model.EntryMemo
 import ForML.Generated.C15Kinds
+import ForML.Generated.C15Lattice
 open ForML ForML.Entry
 
 inductive Term where
@@ -65,7 +84,158 @@ def ofMatrix {α : Type} (f : α → Sexp) (m : List (List α)) : Sexp := .list 
 
 def rectangular {α : Type} (ncols : Nat) (rows : List (List α)) : Bool := rows.all (·.length == ncols)
 
+/-! value level -/
+
+def bool? : Sexp → Option Bool
+  | .atom "true" => some true | .atom "false" => some false | _ => none
+
+def val? : Sexp → Option PyVal
+  | .list [.atom "bool", b] => (bool? b).map .bool
+  | .list [.atom "int", i] => i.int?.map .int
+  | .list [.atom "float", i] => i.int?.map .float
+  | .list [.atom "decimal", i] => i.int?.map .decimal
+  | .list [.atom "npbool", b] => (bool? b).map .npbool
+  | .list [.atom "npint", i] => i.int?.map .npint
+  | .list [.atom "npfloat", i] => i.int?.map .npfloat
+  | .list [.atom "date", d] => d.int?.map .date
+  | .list [.atom "ts", d, s] => do pure (.ts (← d.int?) (← s.nat?))
+  | .list [.atom "str", .atom "int", i] => i.int?.map (fun i => .str (.intLit i))
+  | .list [.atom "str", .atom "float", i] => i.int?.map (fun i => .str (.floatLit i))
+  | .list [.atom "str", .atom "date", d] => d.int?.map (fun d => .str (.dateLit d))
+  | .list [.atom "str", .atom "ts", d, s] => do pure (.str (.tsLit (← d.int?) (← s.nat?)))
+  | .list [.atom "str", .atom "bool", b] => (bool? b).map (fun b => .str (.boolLit b))
+  | .list [.atom "str", .atom "word", n] => n.nat?.map (fun n => .str (.word n))
+  | _ => none
+
+def ofVal : PyVal → Sexp
+  | .bool b => .list [.atom "bool", Sexp.ofBool b]
+  | .int i => .list [.atom "int", Sexp.ofInt i]
+  | .float i => .list [.atom "float", Sexp.ofInt i]
+  | .decimal i => .list [.atom "decimal", Sexp.ofInt i]
+  | .npbool b => .list [.atom "npbool", Sexp.ofBool b]
+  | .npint i => .list [.atom "npint", Sexp.ofInt i]
+  | .npfloat i => .list [.atom "npfloat", Sexp.ofInt i]
+  | .date d => .list [.atom "date", Sexp.ofInt d]
+  | .ts d s => .list [.atom "ts", Sexp.ofInt d, Sexp.ofNat s]
+  | .str (.intLit i) => .list [.atom "str", .atom "int", Sexp.ofInt i]
+  | .str (.floatLit i) => .list [.atom "str", .atom "float", Sexp.ofInt i]
+  | .str (.dateLit d) => .list [.atom "str", .atom "date", Sexp.ofInt d]
+  | .str (.tsLit d s) => .list [.atom "str", .atom "ts", Sexp.ofInt d, Sexp.ofNat s]
+  | .str (.boolLit b) => .list [.atom "str", .atom "bool", Sexp.ofBool b]
+  | .str (.word n) => .list [.atom "str", .atom "word", Sexp.ofNat n]
+
+def vclass? : Sexp → Option VClass
+  | .atom "bool" => some .bool | .atom "int" => some .int | .atom "float" => some .float | .atom "str" => some .str
+  | .atom "date" => some .date | .atom "datetime" => some .datetime | .atom "decimal" => some .decimal
+  | .atom "npbool" => some .npbool | .atom "npint" => some .npint | .atom "npfloat" => some .npfloat | _ => none
+
+def dtype? : Sexp → Option DType
+  | .atom "bool" => some .bool | .atom "int64" => some .int64 | .atom "float64" => some .float64
+  | .atom "str" => some .str | .atom "object" => some .object | _ => none
+
+def liveCast : Kind → PyVal → Option PyVal := pcast ForML.Generated.C15Lattice.liveIsInstance
+
+def cols? : Sexp → Option (List (List PyVal))
+  | .list xs => xs.mapM fun
+    | .list vs => vs.mapM val?
+    | _ => none
+  | _ => none
+
+/-- a payload given by its columns (all of one length, as many as the entry schema has fields) -/
+def tabOfCols (dense : Bool) (cols : List (List PyVal)) : Option (Tab PyVal) :=
+  let nrows := (cols.head?.map (·.length)).getD 0
+  if cols.all (·.length == nrows) then
+    some (if dense then .dense ⟨transposeN nrows cols, cols.length⟩ else .frame ⟨cols, nrows⟩)
+  else none
+
+def req? : Sexp → Option (Req PyVal)
+  | .list [impl, q, e, cols] => do
+    let dense ← impl? impl
+    let q ← fields? q
+    let e ← fields? e
+    let cols ← cols? cols
+    if cols.length != e.length then none
+    let t ← tabOfCols dense cols
+    pure ⟨q, e, t⟩
+  | _ => none
+
+def ofOutcome : Outcome PyVal → Sexp
+  | .missing => .atom "missing"
+  | .indexError => .atom "index-error"
+  | .castError => .atom "cast-error"
+  | .data t =>
+    let tag := match t with | .dense _ => "dense" | .frame _ => "frame"
+    .list [.atom "data", .atom tag, ofMatrix ofVal t.toColumns]
+
+def variant? : Sexp → Option Bool
+  | .atom "legacy" => some true | .atom "fixed" => some false | _ => none
+
+def cap? : Sexp → Option (Option Nat)
+  | .atom "none" => some none | x => x.nat?.map some
+
+def fcol? : Sexp → Option FCol
+  | .list [n, d, c] => do
+    let cls ← match c with
+      | .atom "none" => some none
+      | c => (vclass? c).map some
+    pure ⟨← n.nat?, ← dtype? d, cls⟩
+  | _ => none
+
+def dframe? : Sexp → Option DFrame
+  | .list [n, .list cs] => do pure ⟨← cs.mapM fcol?, ← n.nat?⟩
+  | _ => none
+
+def selection? : Sexp → Option (Bool × List Int)
+  | .list [.atom "rows", idx] => idx.intList?.map (true, ·)
+  | .list [.atom "cols", idx] => idx.intList?.map (false, ·)
+  | _ => none
+
 def stepC15 : Sexp → Sexp
+  | .list [.atom "kmatch", e, a] =>
+    match kind? e, kind? a with
+    | some e, some a => Sexp.ofBool (ForML.Generated.C15Kinds.liveMatch e a)
+    | _, _ => .atom "bad-op"
+  | .list [.atom "cast", k, v] =>
+    match kind? k, val? v with
+    | some k, some v => match liveCast k v with
+      | none => .atom "error"
+      | some w => ofVal w
+    | _, _ => .atom "bad-op"
+  | .list [.atom "reflect", c] =>
+    match vclass? c with
+    | some c => match reflectClass ForML.Generated.C15Lattice.liveIsInstance ForML.Generated.C15Lattice.liveRank c with
+      | none => .atom "none"
+      | some k => .atom (kindName k)
+    | none => .atom "bad-op"
+  | .list [.atom "readerv", variant, impl, q, e, cols] =>
+    match variant? variant, req? (.list [impl, q, e, cols]) with
+    | some legacy, some r => ofOutcome (readerCall ForML.Generated.C15Kinds.liveMatch liveCast legacy r.q r.e r.data)
+    | _, _ => .atom "bad-op"
+  | .list [.atom "session", variant, keymode, cap, .list reqs] =>
+    match variant? variant, cap? cap, reqs.mapM req? with
+    | some legacy, some cap, some reqs =>
+      match keymode with
+      | .atom "exact" => .list ((readerRun ForML.Generated.C15Kinds.liveMatch liveCast legacy cap exactKey [] reqs).map ofOutcome)
+      | .atom "weak" => .list ((readerRun ForML.Generated.C15Kinds.liveMatch liveCast legacy cap weakKey [] reqs).map ofOutcome)
+      | _ => .atom "bad-op"
+    | _, _, _ => .atom "bad-op"
+  | .list [.atom "decode", .list frames] =>
+    match frames.mapM dframe? with
+    | some frames =>
+      .list ((fromFrameRun ForML.Generated.C15Lattice.liveIsInstance ForML.Generated.C15Lattice.liveRank [] frames).1.map fun
+        | none => .atom "error"
+        | some fields => .list (fields.map fun f => .list [Sexp.ofNat f.name, .atom (kindName f.kind)]))
+    | none => .atom "bad-op"
+  | .list [.atom "takes", impl, ncols, rows, .list sels] =>
+    match impl? impl, ncols.nat?, rows? rows, sels.mapM selection? with
+    | some dense, some ncols, some rows, some sels =>
+      if !rectangular ncols rows then .atom "bad-op" else
+      let r := sels.foldl (fun (t : Option (Tab Int)) (sel : Bool × List Int) =>
+        t.bind (fun t => if sel.1 then t.takeRows sel.2 else t.takeColumns sel.2)) (some (mkTab dense ncols rows))
+      match r with
+      | none => .atom "index-error"
+      | some r => .list [.atom "ok", ofMatrix Sexp.ofInt r.toRows, ofMatrix Sexp.ofInt r.toColumns]
+    | _, _, _, _ => .atom "bad-op"
   | .list [.atom "match", q, e] =>
     match q.natList?, e.natList? with
     | some q, some e =>
